@@ -404,6 +404,7 @@ reg(Spec(
     required=["diff:" + d for d in DIFFS] + ["entry:" + e for e in ENTRIES] +
              ["refused", "twin-agrees", "generator-refused",
               "c08:refused-in-history", "persistent-operator:refused",
+              "long-lived-spline:checked",
               "twin:negative-zero"],
     assumptions=["for a bilinear form over operands without a common interval "
                  "the factor is never consulted; such calls are counted as "
@@ -454,9 +455,14 @@ reg(Spec(
           "that alias a small index when truncated). One case = one (n, first "
           "window); distinct by construction. Beyond the exhaustive scope: "
           "random window triples on grids of 300 and 70 000 points, half of "
-          "them hugging the 256 / 65 536 boundaries, with the same oracles."),
+          "them hugging the 256 / 65 536 boundaries, with the same oracles. "
+          "Iterators and references handed out by a support must stay valid "
+          "and keep describing the window across const operations with "
+          "supports on an equal twin grid; assignment between interval-free "
+          "supports on different grids moves the grid along."),
     required=["pairs", "triples", "index-probes", "index-probes:near-SIZE_MAX",
-              "gridsize:2", "gridsize:7", "large-grid:300", "large-grid:70000"],
+              "gridsize:2", "gridsize:7", "large-grid:300", "large-grid:70000",
+              "reference-stability", "empty-assignment-across-grids"],
     assumptions=["scope bound N on the grid size; grid point values are "
                  "irrelevant to the index algebra (one fixed increasing "
                  "sequence per size)"],
@@ -516,6 +522,8 @@ reg(Spec(
               "spline-coefficient-count:invalid", "linear-combination:valid",
               "linear-combination:invalid",
               "linear-combination-reversed-range:invalid",
+              "linear-combination-all-interval-free:valid",
+              "grid-long:over-60-points",
               "interpolate-sizes:valid",
               "interpolate-sizes:invalid", "interpolate-boundary:valid",
               "interpolate-boundary:invalid", "interpolate-boundary:node:LAST",
@@ -564,6 +572,7 @@ reg(Spec(
               "boundary:LAST", "boundary:derivative>=2",
               "boundary:nonzero-value", "abscissae:two-points",
               "abscissae:window-of-larger-grid", "abscissae:many",
+              "data-scale:tiny", "data-scale:huge", "ordinates:all-zero",
               "nodes-checked",
               "boundary-rows-checked", "residuals-checked"] +
              ["order:%d" % i for i in range(1, 6)],
@@ -1180,6 +1189,7 @@ reg(Spec(
                  "div-assign", "mul-assign-alias", "cross-order-assign",
                  "linear-combination")] + ["scalar:zero", "grid:large",
                                           "migration:checked",
+                                          "migration:empty",
                                           "cross-order-assign:same-window",
                                           "orders:8,8", "orders:0,5",
                                           "checked:mul", "checked:sub-assign"],
